@@ -359,3 +359,77 @@ def shape_assignments(prog, root, cap=None):
         step = len(vals) / float(cap)
         vals = [vals[int(i * step)] for i in range(cap)]
     return vals
+
+
+# ------------------------------------------------------------------ level G: object graphs with aliasing (not cycles)
+
+def alias_program(gid):
+    """gid 'seg': m(a: Seg, z) -> Seg;  'arr': m(a: Array(P), z) -> Array(P);  'segs': m(a: Array(Seg), z) -> Array(Seg)"""
+    I = ['p', 'Integer', {}]
+    U = ['p', 'Unicode', {}]
+    Pt = ['c', 'P', {}]
+    classes = [{'n': 'P', 'fields': [['i', I], ['s', U]]},
+               {'n': 'Seg', 'fields': [['start', Pt], ['end', Pt], ['mid', ['a', Pt, {}]],
+                                       ['tail', ['c', 'P', {'max_occurs': 'unbounded'}]]]}]
+    t = {'seg': ['c', 'Seg', {}], 'arr': ['a', Pt, {}], 'segs': ['a', ['c', 'Seg', {}], {}]}[gid]
+    m = {'n': 'm', 'args': [['a', t], ['z', I]], 'ret': t}
+    return {'tns': TNS, 'enums': ENUMS, 'classes': classes, 'services': [{'n': 'S', 'methods': [m]}]}
+
+
+def alias_values(gid, tier='quick'):
+    """every way of filling the P slots of the value with {absent, p, q} where all p's are ONE object and all q's are
+    ONE other object (q carries different field values) -> [(label, value)]"""
+    def mk(c):
+        if c == '-':
+            return None
+        return Obj('P', i=1, s='p', _alias='p') if c == 'p' else Obj('P', i=2, s='q<&>', _alias='q')
+    out = []
+    if gid == 'arr':
+        for n in (2, 3) if tier == 'quick' else (2, 3, 4):
+            for combo in itertools.product('pq', repeat=n):
+                if len(set(combo)) < n:      # at least one object occurs twice
+                    out.append((''.join(combo), [mk(c) for c in combo]))
+        return out
+    def seg(combo):
+        start, end, m0, m1, t0 = combo
+        f = {}
+        if start != '-':
+            f['start'] = mk(start)
+        if end != '-':
+            f['end'] = mk(end)
+        mid = [mk(c) for c in (m0, m1) if c != '-']
+        if mid:
+            f['mid'] = mid
+        if t0 != '-':
+            f['tail'] = [mk(t0)]
+        return Obj('Seg', **f)
+
+    def aliased(combo):
+        cs = [c for c in combo if c != '-']
+        return len(cs) > len(set(cs))
+    if gid == 'seg':
+        for combo in itertools.product('-pq', repeat=5):
+            if aliased(combo):
+                out.append((''.join(combo), seg(combo)))
+        return out
+    if gid == 'segs':
+        # two segments sharing children: (start, end) of each over {-, p, q}; mid / tail unused
+        for combo in itertools.product('-pq', repeat=4):
+            if aliased(combo):
+                a, b_, c, d = combo
+                out.append((''.join(combo), [seg((a, b_, '-', '-', '-')), seg((c, d, '-', '-', '-'))]))
+        if tier != 'quick':
+            for combo in itertools.product('-pq', repeat=5):
+                if aliased(combo):
+                    s = seg(combo)
+                    s.alias = 'S'
+                    out.append(('same-seg-twice|' + ''.join(combo), [s, Obj('Seg'), s]))
+        else:
+            s = seg(('p', 'q', 'p', '-', 'q'))
+            s.alias = 'S'
+            out.append(('same-seg-twice', [s, Obj('Seg'), s]))
+        return out
+    raise ValueError(gid)
+
+
+ALIAS_GIDS = ['seg', 'arr', 'segs']
